@@ -312,3 +312,29 @@ def session_before_initialized(exe):
     out = {str(i): len(c.responses(i)) for i in (0, 1, 2)}
     c.stop()
     return out
+
+
+def session_shutdown_while_loading(exe):
+    """requests sent while the workspace is still loading, then `shutdown`: the queued requests are answered before the server goes down"""
+    c = Client(exe)
+    c.hold = lambda m: m["method"] == "workspace/configuration"
+    c.initialize({"workspace": {"configuration": True}})
+    try:
+        cfg = c.held.get(timeout=60)
+    except Exception:
+        c.stop()
+        return {"setup_failed": "server did not ask for workspace/configuration"}
+    c.hold = None
+    c.request(30, "textDocument/hover", HOVER)
+    c.request("s31", "textDocument/documentSymbol", SYM)
+    c.request(32, "shutdown", None)
+    time.sleep(1.0)
+    c.send({"jsonrpc": "2.0", "id": cfg["id"], "result": [None]})
+    for i in (30, "s31", 32):
+        c.wait(i, 60)
+    time.sleep(0.5)
+    out = {str(i): len(c.responses(i)) for i in (30, "s31", 32)}
+    c.notify("exit", None)
+    time.sleep(0.3)
+    c.stop()
+    return out
